@@ -486,7 +486,9 @@ func (c *FnCtx) frameObligations(rs *State, ri int) {
 		}
 		pre := c.pre.ghost[g]
 		if pre == "" {
-			pre = "ghost0_" + sanitizeSym(g)
+			if gv := c.V.specs.GhostVars[g]; gv != nil {
+				pre = c.ghostGet(c.pre, gv)
+			}
 		}
 		if strings.HasPrefix(g, "calls.") || strings.HasPrefix(g, "calls2.") || strings.HasPrefix(g, "lastret.") || strings.HasPrefix(g, "nextpos.") {
 			continue // the trace of the function's own callback parameters is specified by the postconditions
